@@ -495,7 +495,11 @@ func (sess *session) Create(ctx context.Context, parent Fid, name string,
 		err = openLocked(ctx, &next, mode)
 		if err != nil { // Oops: Create has already succeeded
 						// - so now we have to delete everthing.
-			sess.delRef(ctx, parent, false)
+			// ref is locked by this call, so it cannot go through
+			// sess.delRef (which would lock it again and deadlock).
+			sess.refs.Delete(parent)
+			delRefAction(ctx, ref, false)
+			ent.Clunk(ctx)
 			// Note: ignoring possible multiple errors
 			return fail(err.Error())
 		}
